@@ -2,4 +2,4 @@
 From Coq Require Extraction ExtrOcamlBasic.
 From Falco Require Import Base.Res Model.TestRun Model.TestRunCover Model.TestRunInst.
 Extraction Language OCaml.
-Extraction "testrun_model.ml" irun_file irun_items exit_status iexec iinstr.
+Extraction "testrun_model.ml" irun_file irun_items exit_status iexec iinstr untag.
